@@ -872,12 +872,13 @@ Qed.
 Definition euclid_domain_ok : bool :=
   forallb (fun n => forallb (fun k => euclid_ok n k) (seq 0 (S n))) (seq 1 64).
 
-Lemma euclid_domain_checked : euclid_domain_ok = true.
+Lemma euclid_domain_checked :
+  forallb (fun n => forallb (fun k => euclid_ok n k) (seq 0 (S n))) (seq 1 64) = true.
 Proof. vm_compute. reflexivity. Qed.
 
 Lemma euclid_ok_in_domain n k : (1 <= n <= 64)%nat -> (k <= n)%nat -> euclid_ok n k = true.
 Proof.
-  intros Hn Hk. pose proof euclid_domain_checked as H. unfold euclid_domain_ok in H.
+  intros Hn Hk. pose proof euclid_domain_checked as H.
   rewrite forallb_forall in H. specialize (H n ltac:(apply in_seq; lia)).
   rewrite forallb_forall in H. apply H. apply in_seq. lia.
 Qed.
